@@ -103,6 +103,402 @@ pub fn build(name: &str, level: u8) -> Option<Scenario> {
                 s.max_term = mt + 1;
             }
         }
+        // ------------------------------------------------------------ STALE
+        // voter {1} (+ learner 3) and a removed-but-unaware former voter 2
+        n if n.starts_with("stale") => {
+            s = Scenario::new(name, 3);
+            s.voters = vec![1, 2];
+            s.learners = vec![3];
+            let pv = n.contains("-pvcq");
+            for nd in s.nodes.iter_mut() {
+                nd.pre_vote = pv;
+                nd.check_quorum = pv;
+            }
+            if n.contains("-async") {
+                s.nodes[0].mode = AppMode::Async;
+            }
+            if n.contains("-lazy") {
+                s.inputs_per_ready = 3;
+            }
+            s.cc_menu = vec![CcSpec::V1(1, 2)];
+            s.prefix = vec![
+                Action::Timeout(1),
+                Action::Settle,
+                Action::ProposeCc(1, 0),
+                Action::Settle0(1),
+                Action::Deliver(1, 2),
+                Action::Settle0(2),
+                Action::Deliver(2, 1),
+                Action::Settle0(1),
+                Action::Isolate(2),
+                Action::Settle,
+            ];
+            s.cc_menu = vec![CcSpec::V1(1, 2)];
+            s.timeoutable = vec![1, 2];
+            s.clients_at = vec![1];
+            s.crashable = vec![1];
+            s.tickable = vec![1];
+            let (mt, to, ticks, props, cuts, crashes, lazy, dups) = match l {
+                1 => (4, 2, 0, 1, 0, 0, 2, 0),
+                2 => (4, 3, 0, 1, 1, 0, 2, 0),
+                3 => (5, 3, 2, 1, 1, 1, 3, 1),
+                _ => (6, 4, 4, 2, 2, 1, 4, 1),
+            };
+            s.max_term = mt;
+            s.max_index = 6;
+            s.caps = caps(|c| {
+                c.timeouts = to;
+                c.ticks = ticks;
+                c.props = props;
+                c.cuts = cuts;
+                c.crashes = crashes;
+                c.lazy = if n.contains("-lazy") { lazy } else { 0 };
+                c.dups = dups;
+                c.beats = 1;
+            });
+        }
+        // ------------------------------------------------------------ CRASH
+        // every crash point of every Ready of every node; sync / async / lazy application
+        n if n.starts_with("crash") => {
+            let nn = if n.starts_with("crash2") { 2 } else { 3 };
+            s = Scenario::new(name, nn);
+            for nd in s.nodes.iter_mut() {
+                if n.contains("-async") {
+                    nd.mode = AppMode::Async;
+                }
+                if n.contains("-lag") {
+                    nd.apply_lag = true;
+                }
+                if n.contains("-page") {
+                    nd.max_committed_size_per_ready = 1;
+                }
+                if n.contains("-unp") {
+                    nd.max_apply_unpersisted = 2;
+                }
+            }
+            if n.contains("-lazy") {
+                s.inputs_per_ready = 2;
+            }
+            s.crashable = (1..=nn as u8).collect();
+            s.clients_at = (1..=nn as u8).collect();
+            s.clone_checks = n.contains("-cc");
+            let (mt, to, props, cuts, crashes, mi, lazy) = match l {
+                1 => (2, 1, 1, 1, 1, 3, 1),
+                2 => (2, 2, 1, 1, 1, 3, 1),
+                3 => (3, 2, 2, 1, 1, 4, 2),
+                4 => (3, 2, 2, 2, 2, 4, 2),
+                _ => (3, 3, 2, 2, 2, 5, 2),
+            };
+            s.max_term = mt;
+            s.max_index = mi;
+            s.caps = caps(|c| {
+                c.timeouts = to;
+                c.props = props;
+                c.cuts = cuts;
+                c.crashes = crashes;
+                c.lazy = if n.contains("-lazy") { lazy } else { 0 };
+            });
+        }
+        // ------------------------------------------------------------ REPL / FLOW
+        n if n.starts_with("repl") || n.starts_with("flow") => {
+            s = Scenario::new(name, 3);
+            let flow = n.starts_with("flow");
+            for nd in s.nodes.iter_mut() {
+                nd.max_inflight = if n.contains("-i1") { 1 } else { 2 };
+                nd.max_size_per_msg = if n.contains("-sz") { 0 } else { raft::NO_LIMIT };
+                nd.batch_append = n.contains("-batch");
+                nd.skip_bcast_commit = n.contains("-skip");
+                if n.contains("-async") {
+                    nd.mode = AppMode::Async;
+                }
+                if flow {
+                    nd.max_uncommitted_size = 3;
+                    nd.max_size_per_msg = 0;
+                }
+                if n.contains("-szk") {
+                    nd.max_size_per_msg = 40;
+                }
+            }
+            if n.contains("-lazy") || n.contains("-batch") {
+                s.inputs_per_ready = 2;
+            }
+            if n.contains("-gc") {
+                s.group_commit = true;
+                s.nodes[0].group_id = 1;
+                s.nodes[1].group_id = 1;
+                s.nodes[2].group_id = 2;
+            }
+            s.prefix = vec![Action::Timeout(1), Action::Settle];
+            if n.contains("-div") {
+                // follower 2 with a divergent uncommitted tail: 2 led an earlier term alone
+                s.prefix = vec![
+                    Action::Timeout(2),
+                    Action::Settle0(2),
+                    Action::Deliver(2, 3),
+                    Action::Settle0(3),
+                    Action::Deliver(3, 2),
+                    Action::Settle0(2),
+                    Action::DropAll,
+                    Action::Propose(2, 0),
+                    Action::Settle0(2),
+                    Action::DropAll,
+                    Action::Timeout(1),
+                    Action::Settle0(1),
+                    Action::Deliver(1, 3),
+                    Action::Settle0(3),
+                    Action::Deliver(3, 1),
+                    Action::Settle0(1),
+                    Action::DropAll,
+                    Action::Tick(1),
+                    Action::Settle0(1),
+                ];
+            }
+            s.timeoutable = vec![];
+            s.clients_at = vec![1];
+            s.crashable = vec![2];
+            s.prop_sizes = if flow { vec![0, 1, 3] } else { vec![1] };
+            s.setcap_values = vec![0, 1, 3];
+            s.fault_types = vec![
+                raft::eraftpb::MessageType::MsgAppend as u8,
+                raft::eraftpb::MessageType::MsgAppendResponse as u8,
+                raft::eraftpb::MessageType::MsgHeartbeatResponse as u8,
+            ];
+            let (props, beats, reorders, dups, drops, cuts, mi, lazy, setcaps, unreach) = match l {
+                1 => (2, 1, 1, 0, 0, 0, 5, 1, 0, 0),
+                2 => (2, 1, 1, 1, 1, 0, 5, 1, 1, 0),
+                3 => (3, 2, 1, 1, 1, 1, 6, 2, 1, 1),
+                4 => (3, 2, 2, 2, 2, 1, 6, 2, 1, 1),
+                _ => (4, 3, 2, 2, 3, 2, 7, 3, 2, 1),
+            };
+            s.max_index = mi + if n.contains("-div") { 1 } else { 0 };
+            s.max_term = 3;
+            s.caps = caps(|c| {
+                c.props = props;
+                c.beats = beats;
+                c.reorders = reorders;
+                c.dups = dups;
+                c.drops = drops;
+                c.cuts = cuts;
+                c.lazy = if s.inputs_per_ready > 1 { lazy } else { 0 };
+                if flow {
+                    c.setcaps = setcaps;
+                    c.unreach = unreach;
+                }
+            });
+        }
+        // ------------------------------------------------------------ MEMBER
+        n if n.starts_with("member") => {
+            s = Scenario::new(name, 4);
+            s.voters = vec![1, 2, 3];
+            for nd in s.nodes.iter_mut() {
+                nd.apply_lag = !n.contains("-eager");
+                if n.contains("-async") {
+                    nd.mode = AppMode::Async;
+                }
+                nd.pre_vote = n.contains("-pvcq");
+                nd.check_quorum = n.contains("-pvcq");
+            }
+            s.cc_menu = vec![
+                CcSpec::V1(0, 4),                          // add voter 4
+                CcSpec::V1(1, 3),                          // remove 3
+                CcSpec::V1(1, 1),                          // remove 1 (the leader)
+                CcSpec::V1(2, 4),                          // add learner 4
+                CcSpec::V2(0, vec![(0, 4), (1, 3)]),       // joint, auto leave: add 4, remove 3
+                CcSpec::V2(2, vec![(0, 4), (1, 3)]),       // joint, explicit
+                CcSpec::V2(0, vec![]),                     // leave joint
+                CcSpec::V2(1, vec![(2, 3)]),               // joint implicit: demote 3
+                CcSpec::V1(2, 3),                          // demote 3 (simple)
+            ];
+            if n.contains("-joint") {
+                // start inside an explicit joint configuration {1,2,4}&&{1,2,3}
+                s.prefix = vec![Action::Timeout(1), Action::Settle, Action::ProposeCc(1, 0), Action::Settle];
+                s.cc_menu = vec![
+                    CcSpec::V2(2, vec![(0, 4), (1, 3)]),   // (prefix) enter joint, explicit
+                    CcSpec::V2(0, vec![]),                 // leave joint
+                    CcSpec::V1(1, 2),                      // illegal while joint
+                    CcSpec::V2(0, vec![(1, 2)]),           // illegal while joint
+                ];
+            } else if n.contains("-rm1") {
+                // the leader removes itself (raft-rs lets it keep leading until it steps down)
+                s.prefix = vec![Action::Timeout(1), Action::Settle];
+                s.cc_menu = vec![CcSpec::V1(1, 1)];
+                s.clients_at = vec![1];
+                s.timeoutable = vec![2];
+            } else {
+                s.prefix = vec![Action::Timeout(1), Action::Settle];
+            }
+            if !n.contains("-rm1") {
+                s.clients_at = vec![1, 2];
+                s.timeoutable = vec![1, 2, 3, 4];
+            }
+            s.crashable = vec![1, 2];
+            s.transfer_targets = vec![2, 4];
+            let (ccs, props, to, crashes, mt, mi, xf, lazy) = match l {
+                1 if n.contains("-rm1") => (1, 1, 0, 0, 2, 6, 0, 1),
+                1 => (1, 0, 0, 0, 2, 5, 0, 1),
+                2 => (1, 1, 1, 0, 3, 6, 0, 1),
+                3 => (2, 0, 1, 0, 3, 6, 0, 1),
+                4 => (2, 1, 1, 1, 3, 7, 0, 2),
+                _ => (3, 1, 2, 1, 4, 8, 1, 2),
+            };
+            s.max_term = mt;
+            s.max_index = mi + if n.contains("-joint") { 1 } else { 0 };
+            if n.contains("-lazy") {
+                s.inputs_per_ready = 2;
+            }
+            s.caps = caps(|c| {
+                c.ccs = ccs;
+                c.props = props;
+                c.timeouts = to;
+                c.crashes = crashes;
+                c.transfers = xf;
+                c.lazy = if n.contains("-lazy") { lazy } else { 0 };
+            });
+        }
+        // ------------------------------------------------------------ SNAP
+        n if n.starts_with("snap") => {
+            s = Scenario::new(name, 3);
+            s.prefix = vec![
+                Action::Timeout(1),
+                Action::Settle,
+                Action::Crash(3, 9),
+                Action::Propose(1, 0),
+                Action::Settle,
+                Action::Propose(1, 0),
+                Action::Settle,
+                Action::Compact(1),
+                Action::DropAll,
+                Action::Restart(3),
+            ];
+            if n.contains("-joint") {
+                s = Scenario::new(name, 4);
+                s.voters = vec![1, 2, 3];
+                s.cc_menu = vec![CcSpec::V2(2, vec![(0, 4), (1, 2)])];
+                s.prefix = vec![
+                    Action::Timeout(1),
+                    Action::Settle,
+                    Action::Crash(3, 9),
+                    Action::ProposeCc(1, 0),
+                    Action::Settle,
+                    Action::Propose(1, 0),
+                    Action::Settle,
+                    Action::Compact(1),
+                    Action::DropAll,
+                    Action::Restart(3),
+                ];
+            }
+            s.clients_at = vec![1];
+            s.crashable = vec![3];
+            s.timeoutable = vec![3];
+            s.fault_types = vec![raft::eraftpb::MessageType::MsgSnapshot as u8, raft::eraftpb::MessageType::MsgAppendResponse as u8];
+            let (compacts, props, dups, drops, reorders, snapfail, reqsnaps, cuts, to, beats, mi) = match l {
+                1 => (0, 1, 0, 0, 0, 1, 0, 0, 0, 2, 6),
+                2 => (1, 1, 1, 1, 0, 1, 0, 0, 0, 2, 6),
+                3 => (1, 1, 1, 1, 1, 1, 1, 1, 0, 2, 6),
+                4 => (1, 2, 1, 1, 1, 1, 1, 1, 1, 3, 7),
+                _ => (2, 2, 2, 2, 1, 2, 1, 1, 1, 3, 8),
+            };
+            s.max_index = mi;
+            s.max_term = 3;
+            s.caps = caps(|c| {
+                c.compacts = compacts;
+                c.props = props;
+                c.dups = dups;
+                c.drops = drops;
+                c.reorders = reorders;
+                c.snapfail = snapfail;
+                c.reqsnaps = reqsnaps;
+                c.cuts = cuts;
+                c.timeouts = to;
+                c.beats = beats;
+            });
+        }
+        // ------------------------------------------------------------ READ
+        n if n.starts_with("read") => {
+            s = Scenario::new(name, 3);
+            s.prefix = vec![Action::Timeout(1), Action::Settle];
+            if n.contains("-lease") {
+                for nd in s.nodes.iter_mut() {
+                    nd.lease_read = true;
+                    nd.check_quorum = true;
+                }
+            }
+            s.clients_at = vec![1, 2];
+            s.timeoutable = vec![2, 3];
+            s.crashable = vec![1];
+            s.cc_menu = vec![CcSpec::V1(1, 3)];
+            s.fault_types = vec![
+                raft::eraftpb::MessageType::MsgHeartbeat as u8,
+                raft::eraftpb::MessageType::MsgHeartbeatResponse as u8,
+                raft::eraftpb::MessageType::MsgReadIndex as u8,
+                raft::eraftpb::MessageType::MsgReadIndexResp as u8,
+            ];
+            let (reads, props, to, beats, dups, drops, crashes, ccs, reorders) = match l {
+                1 => (1, 0, 1, 1, 0, 0, 0, 0, 0),
+                2 => (2, 1, 1, 1, 1, 0, 0, 0, 0),
+                3 => (2, 1, 1, 2, 1, 1, 0, 0, 1),
+                4 => (2, 1, 2, 2, 1, 1, 1, 0, 1),
+                _ => (3, 2, 2, 3, 2, 1, 1, 1, 1),
+            };
+            let ccs = if n.contains("-cc") { ccs.max(1) } else { 0 };
+            s.max_term = 3;
+            s.max_index = 5;
+            s.caps = caps(|c| {
+                c.reads = reads;
+                c.props = props;
+                c.timeouts = to;
+                c.beats = beats;
+                c.dups = dups;
+                c.drops = drops;
+                c.crashes = crashes;
+                c.ccs = ccs;
+                c.reorders = reorders;
+            });
+        }
+        // ------------------------------------------------------------ XFER
+        n if n.starts_with("xfer") => {
+            s = Scenario::new(name, 4);
+            s.voters = vec![1, 2, 3];
+            s.learners = vec![4];
+            for nd in s.nodes.iter_mut() {
+                nd.pre_vote = n.contains("-pvcq");
+                nd.check_quorum = n.contains("-pvcq");
+            }
+            s.prefix = vec![Action::Timeout(1), Action::Settle];
+            if n.contains("-lag") {
+                // follower 3 lags by one entry
+                s.prefix = vec![
+                    Action::Timeout(1),
+                    Action::Settle,
+                    Action::Crash(3, 9),
+                    Action::Propose(1, 0),
+                    Action::Settle,
+                    Action::DropAll,
+                    Action::Restart(3),
+                ];
+            }
+            s.clients_at = vec![1, 2];
+            s.timeoutable = vec![];
+            s.transfer_targets = vec![1, 2, 3, 4, 9];
+            s.cc_menu = vec![CcSpec::V1(1, 3)];
+            let (xf, props, beats, drops, dups, ccs, mt) = match l {
+                1 => (1, 1, 0, 0, 0, 0, 3),
+                2 => (2, 1, 3, 0, 0, 0, 3),
+                3 => (2, 1, 4, 1, 0, 0, 3),
+                4 => (2, 1, 4, 1, 1, 1, 4),
+                _ => (3, 2, 4, 2, 1, 1, 4),
+            };
+            s.max_term = mt;
+            s.max_index = 6;
+            s.caps = caps(|c| {
+                c.transfers = xf;
+                c.props = props;
+                c.beats = beats;
+                c.drops = drops;
+                c.dups = dups;
+                c.ccs = ccs;
+            });
+        }
         _ => return None,
     }
     s.name = format!("{}/L{}", name, level);
